@@ -92,7 +92,7 @@ M += [
 
 M += [
  ('c09-overwrite-b', 'C09', 'teneva/func.py', "overwrite_a=False, overwrite_b=False,", "overwrite_a=False, overwrite_b=True,", 'defect 8 reintroduced'),
- ('c09-mul-nocopy', 'C09', 'teneva/act_two.py', "    if teneva._is_num(Y2):\n        Y = teneva.copy(Y1)\n        Y[0] *= Y2\n        return Y", "    if teneva._is_num(Y2):\n        Y = list(Y1)\n        Y[0] = Y[0] * Y2\n        return Y", 'mul(Y, number) shares the other cores'),
+ ('c09-mul-nocopy', 'C09', 'teneva/act_two.py', "    if teneva._is_num(Y2):\n        Y = teneva.copy(Y1)\n        Y[0] = Y[0] * Y2\n        return Y", "    if teneva._is_num(Y2):\n        Y = list(Y1)\n        Y[0] = Y[0] * Y2\n        return Y", 'mul(Y, number) shares the other cores'),
  ('c09-outer-nocopy', 'C09', 'teneva/act_two.py', "    Y = teneva.copy(Y1)\n    Y.extend(teneva.copy(Y2))\n    return Y", "    Y = teneva.copy(Y1)\n    Y.extend(Y2)\n    return Y", 'outer aliases the second factor'),
  ('c09-get-and-grad', 'C09', 'teneva/act_one.py', "    grad = [np.zeros(G.shape) for G in Y]", "    grad = [np.zeros(G.shape) if G.flags['C_CONTIGUOUS'] else G for G in Y]", 'gradient reuses non-contiguous cores'),
  ('c09-sort-inplace', 'C09', 'teneva/stat.py', "    x = np.array(x, copy=True)\n    x.sort()", "    x = np.asarray(x)\n    x.sort()", 'cdf_getter sorts its argument'),
